@@ -526,3 +526,39 @@ Section Altered.
     - left. now apply wrong_digest_rejected.
   Qed.
 End Altered.
+
+Section Matching.
+  Variable H Hd : bytes -> bytes.
+  Variable decode : bytes -> option ptree.
+
+  (* the second failure layer: a chunk whose bytes MATCH the manifest digest is
+     never answered with the retryable ErrChunkCorrupted *)
+  Theorem digest_match_never_corrupted_l root digest b st :
+    Hd b = digest -> fst (restore_chunk H Hd decode root digest b st) <> RCorrupted.
+  Proof.
+    intros E. unfold restore_chunk. rewrite E, (proj2 (bytes_eqb_eq _ _) eq_refl). cbn [negb].
+    destruct (decode b) as [p|]; [destruct (verify H root p)|]; cbn; discriminate.
+  Qed.
+
+  (* ... if it does not decode, or decodes to something that does not verify,
+     the answer is the proof failure, nothing is written *)
+  Theorem matching_undecodable_is_proof_failure_l root digest b st :
+    Hd b = digest ->
+    (decode b = None \/ exists p, decode b = Some p /\ verify H root p = false) ->
+    restore_chunk H Hd decode root digest b st = (RProofFail, st).
+  Proof.
+    intros E Hbad. unfold restore_chunk. rewrite E, (proj2 (bytes_eqb_eq _ _) eq_refl). cbn [negb].
+    destruct Hbad as [->|(p & -> & ->)]; reflexivity.
+  Qed.
+
+  (* ... and the restorer abandons the checkpoint (so that the caller does not
+     fetch the same bytes again) *)
+  Theorem matching_undecodable_aborts_l root digests s i b :
+    active s = true -> existsb (Nat.eqb i) (pend s) = true -> nth_error digests i = Some (Hd b) ->
+    (decode b = None \/ exists p, decode b = Some p /\ verify H root p = false) ->
+    rstep H Hd decode root digests s (EChunk i b) = (mkr false [] (db s), RProofFail).
+  Proof.
+    intros Ea Ep Ed Hbad. cbn [rstep]. rewrite Ea, Ep, Ed. cbn [negb].
+    now rewrite (matching_undecodable_is_proof_failure_l root (Hd b) b (db s) eq_refl Hbad).
+  Qed.
+End Matching.
